@@ -104,6 +104,12 @@ CLAIMED = {
         note="Events on rows 0-4, 7 typed literals, jump to every node, loads that hide options; sequences <= 3; Textual widgets not started (their handlers' calls into the model are reproduced); tree structure read from the real object, visibility conditions from the abstract program.",
         design_ref="DESIGN.md section 3, C17",
     ),
+    "C19": dict(
+        technique="TLA+ model of the deprecated-options scope (spec/DeprScope.tla: nearest project root, global and local rename sets as the property defines them, and the implementation's memoised root search with back-fill and lazily built per-project sets); TLC explores every order of checking every subset of files of each directory universe (spec/MC_Depr.tla) with ScopeExact / MemoSound / LocalSound as invariants and compares verdicts and memo contents with the real functions run on a materialised tree",
+        text="Model checking: for each directory universe all check orders are explored; after every step the verdicts must equal the memo-free definition (exact scope), the memo and the lazily built sets must be sound, and the verdicts and project-root cache observed on _prepare_deprecated_options / check_deprecated_options for the same order in a real directory tree must equal the model's.",
+        note="9-directory skeleton, <= 3 rename files and <= 3 defaults files per universe, all orders of all subsets; the command line is run once for a sample of universes (exit status); IDF root is not a project root.",
+        design_ref="DESIGN.md section 3, C19",
+    ),
 }
 
 REASON_PENDING = "check not built yet in this session (planned in DESIGN.md section 3); not claimed until its TLA+ model and conformance harness exist"
